@@ -569,6 +569,20 @@ func (b *builder) build1(v *Val) interface{} {
 		return FuncStringer(func() string { return x })
 	case "nilfuncstringer":
 		return FuncStringer(nil)
+	case "mck":
+		// complex keys whose real part is NaN: ordered by their imaginary part
+		m := map[complex128]interface{}{}
+		for i := range v.Sub {
+			m[complex(math.NaN(), float64(i+1))] = b.sub(v, i)
+		}
+		return m
+	case "mnk":
+		// array / struct keys whose first component is NaN: ordered by the rest
+		m := map[[2]float64]interface{}{}
+		for i := range v.Sub {
+			m[[2]float64{math.NaN(), float64(len(v.Sub) - i)}] = b.sub(v, i)
+		}
+		return m
 	case "mak":
 		// composite keys holding interfaces (Keys: pairs)
 		m := map[[2]interface{}]interface{}{}
@@ -732,7 +746,11 @@ func stateString(st fmt.State, verb rune, withZero bool) string {
 	if p, ok := st.Precision(); ok {
 		s += "p" + strconv.Itoa(p)
 	}
-	return s + "%" + string(verb) + "]"
+	// the numbers themselves, also when they are reported as absent (a
+	// Formatter may ignore the second result)
+	w, _ := st.Width()
+	pr, _ := st.Precision()
+	return s + "%" + string(verb) + " " + strconv.Itoa(w) + "," + strconv.Itoa(pr) + "]"
 }
 
 // compiled is an op whose operands have been built once, so that a script
